@@ -6,6 +6,7 @@ from typing import Any, Callable, Dict, List, Optional, Sequence, Tuple
 
 import z3
 
+from vlib import smtdump
 from vlib import tealsem as ts
 from vlib.tealsem import (
     ADDR_ATT,
@@ -179,6 +180,7 @@ class Z3Dom:
         else:
             self.stats.unknown += 1
             self.unknown_seen = True
+        smtdump.maybe_dump(self.solver, extra, rs)
         return rs
 
     def feasible(self) -> bool:
